@@ -305,11 +305,105 @@ def from_json_case(c):
     return c
 
 
+# ---------------------------------------------------------------------------- script mode in full runs
+def pipeline_script_case(rep, cseed, sb, tag):
+    """Histories of runs with `clean` on and `_autoclean 0` (the tool only writes var/clean.sh); the
+    operator runs the script after some runs, always after the last (fault-free) one.  The script must
+    never delete a file the published metadata needs, and after it the mirror must equal a fresh
+    auto-cleaned mirror of the same upstream."""
+    from . import pipeline as P
+    from . import runs as R
+    found = False
+    rng = random.Random(cseed)
+    scn0 = P.gen_scenario(rng, nrepos=rng.choice([1, 1, 2]))
+    scn0.autoclean = False
+    base = sb / tag
+    cur = scn0
+    history = []
+
+    def run_script():
+        script = base / "var" / "clean.sh"
+        if not script.exists():
+            return None
+        p = subprocess.run(["/bin/sh", str(script)], cwd=str(base), stdout=subprocess.PIPE, stderr=subprocess.PIPE, timeout=120)
+        return p
+
+    steps = rng.randint(1, 3)
+    last_ok = None
+    # flip-flop histories: the upstream returns to an earlier state (a removed package comes back under
+    # its old, immutable pool path), so a file that was stale two runs ago is needed again
+    flipflop = rng.random() < 0.4
+    first_repos = json.loads(json.dumps(scn0.repos))
+    if flipflop:
+        steps = 2
+    for i in range(steps + 1):
+        files = R.files_of(cur)
+        final = i == steps
+        mode = "clean" if final or flipflop else rng.choice(["clean", "clean", "faulty"])
+        plan = R.gen_fault_plan(rng, cur, files, density=2) if mode == "faulty" else {}
+        res = R.run_observed(cur, base, plan=plan, files_by_url=files)
+        ran = final or (rng.random() < 0.4 and not flipflop)
+        history.append((mode, res.code, ran))
+        jc = {"scenario": {"repos": scn0.repos, "nthreads": scn0.nthreads}, "history": history, "cseed": cseed}
+        if res.code == 0:
+            last_ok = cur
+        if ran:
+            p = run_script()
+            if p is not None and p.returncode != 0:
+                found = True
+                rep.violation(f"var/clean.sh fails (rc={p.returncode}, {p.stderr[-150:]!r}) after history {history}",
+                              {"kind": "oracle", "tie": "pipeline_script", "case": jc}, tags={"oracle": "script_rc"})
+            if last_ok is not None:
+                probs = P.fsck(P.Scenario(last_ok.repos), base)
+                if probs:
+                    found = True
+                    rep.violation(f"after running var/clean.sh the published mirror misses needed files: {probs[:2]} "
+                                  f"(history {history})",
+                                  {"kind": "oracle", "tie": "pipeline_script", "case": jc}, tags={"oracle": "script_deletes_needed"})
+                    break
+        if final:
+            break
+        if flipflop and i == 1:
+            back = json.loads(json.dumps(first_repos))
+            for r in back:
+                r["version"]["serial"] = 3
+            cur = P.Scenario(back, nthreads=cur.nthreads, autoclean=False)
+            continue
+        if not flipflop and rng.random() < 0.3:
+            continue
+        cur = P.Scenario([dict(r, version=P.gen_version(rng, serial=r["version"]["serial"] + 1, prev=r["version"]))
+                          for r in cur.repos], nthreads=cur.nthreads, autoclean=False)
+    rep.case(("pscript", tuple((m, c, r) for m, c, r in history)), sample={"history": history})
+    rep.count("pipeline_script")
+    if not found and history[-1][1] == 0:
+        fresh = sb / f"{tag}_fresh"
+        ref = P.Scenario(cur.repos, nthreads=cur.nthreads, autoclean=True)
+        fr = R.run_observed(ref, fresh, files_by_url=R.files_of(cur))
+        if fr.code == 0:
+            for r in cur.repos:
+                got = {k: v[:3] for k, v in P.tree_listing(base / "mirror" / P.repo_dir(r["url"])).items()}
+                want = {k: v[:3] for k, v in P.tree_listing(fresh / "mirror" / P.repo_dir(r["url"])).items()}
+                if got != want:
+                    found = True
+                    rep.violation(f"after var/clean.sh the mirror of {r['url']} differs from an auto-cleaned fresh mirror: "
+                                  f"stale {sorted(set(got) - set(want))[:3]}, missing {sorted(set(want) - set(got))[:3]} "
+                                  f"(history {history})",
+                                  {"kind": "oracle", "tie": "pipeline_script", "case": jc}, tags={"oracle": "script_equals_auto"})
+        shutil.rmtree(fresh, ignore_errors=True)
+    elif history[-1][1] != 0:
+        found = True
+        rep.violation(f"fault-free run exits {history[-1][1]} after history {history}",
+                      {"kind": "oracle", "tie": "pipeline_script", "case": jc}, tags={"oracle": "final_exit"})
+    shutil.rmtree(base, ignore_errors=True)
+    return found
+
+
 def run(rep: C.Report):
     rep.rule = ("directory trees (nesting <= 4, empty dirs, symlinks to files/dirs inside/outside/dangling, names "
                 "with quotes, spaces, $, backslash, newline, leading dash, glob and command characters, "
                 "non-ASCII), keep sets of files and directories (incl. missing paths and the root), wipe ratios "
-                "{off, .01, .4, .5, 1}; distinct by (tree shape, keep set, ratios)")
+                "{off, .01, .4, .5, 1}; distinct by (tree shape, keep set, ratios); plus full-run histories in "
+                "script mode (_autoclean 0) where var/clean.sh is executed after some runs and after the last")
     rep.assumptions += ["names are valid UTF-8 (the script is written with encoding utf-8)",
                         "float rounding of the ratio test is not modelled: exact rationals agree for counts < 2^53",
                         "special files (fifo, socket, device) are outside the tree model"]
@@ -336,6 +430,9 @@ def run(rep: C.Report):
             rep.count("nodes.%d" % min(nodes // 5 * 5, 30))
             for k, v in r.items():
                 rows[k].append((to_json_case(v[0]), v[1], v[2]))
+        prng = random.Random(rep.seed + 404)
+        for i in range(14 if rep.tier == "quick" else 500):
+            found |= pipeline_script_case(rep, prng.getrandbits(32), sb, f"ps{i}")
     finally:
         shutil.rmtree(sb, ignore_errors=True)
     header = HEADER + COQ_DEFS
@@ -351,7 +448,10 @@ def replay(rep: C.Report, path: str):
     j = json.loads(Path(path).read_text())
     sb = Path(os.path.realpath(tempfile.mkdtemp(prefix="vsb_c04_")))
     try:
-        r, f = run_case(rep, from_json_case(j["case"]), sb)
+        if "cseed" in j["case"]:
+            pipeline_script_case(rep, j["case"]["cseed"], sb, "replay")
+        else:
+            r, f = run_case(rep, from_json_case(j["case"]), sb)
         print("replayed; violations", rep.violations)
     finally:
         shutil.rmtree(sb, ignore_errors=True)
